@@ -88,7 +88,7 @@ theorem flSumTo_bounds {rnd : Rat → Rat} {u : Rat} (h : StdRounding rnd u) (n 
     unnormalised update lies within the relative factor `(1 ± u)^(S+2)` of the exact Bayes weight
     (S additions, one product per term, one final product) -/
 theorem unnormFl_enclosure {rnd : Rat → Rat} {u : Rat} (h : StdRounding rnd u)
-    {m : POMDP} (hm : ValidModel m) {b : Vec} (hb : ∀ s, s < m.S → 0 ≤ b s)
+    {m : POMDP} (hm : NonnegModel m) {b : Vec} (hb : ∀ s, s < m.S → 0 ≤ b s)
     {a o : Nat} (ha : a < m.A) (ho : o < m.O) {s1 : Nat} (hs1 : s1 < m.S) :
     (1 - u) ^ (m.S + 2) * weight m b a o s1 ≤ unnormFl rnd m b a o s1 ∧
     unnormFl rnd m b a o s1 ≤ (1 + u) ^ (m.S + 2) * weight m b a o s1 := by
@@ -132,7 +132,7 @@ def updateFl (rnd : Rat → Rat) (m : POMDP) (b : Vec) (a o : Nat) : Vec :=
     With `u = 2^-53` and `S ≤ 10^6` both factors differ from 1 by less than `4·10^-10`: this is what licenses
     the harness's relative tolerance `10^-9` on non-dyadic inputs. -/
 theorem updateFl_enclosure {rnd : Rat → Rat} {u : Rat} (h : StdRounding rnd u) (hu : u < 1)
-    {m : POMDP} (hm : ValidModel m) {b : Vec} (hb : ∀ s, s < m.S → 0 ≤ b s)
+    {m : POMDP} (hm : NonnegModel m) {b : Vec} (hb : ∀ s, s < m.S → 0 ≤ b s)
     {a o : Nat} (ha : a < m.A) (ho : o < m.O) (hpos : 0 < probO m b a o) {s1 : Nat} (hs1 : s1 < m.S) :
     (1 - u) ^ (m.S + 3) / (1 + u) ^ (2 * m.S + 2) * (weight m b a o s1 / probO m b a o) ≤ updateFl rnd m b a o s1 ∧
     updateFl rnd m b a o s1 ≤ (1 + u) ^ (m.S + 3) / (1 - u) ^ (2 * m.S + 2) * (weight m b a o s1 / probO m b a o) := by
